@@ -22,6 +22,13 @@ use serde_json::{json, Value};
 /// Absolute allowance on every probability comparison (DESIGN §C11: f32 backgrounds do not sum to 1).
 pub const EPS_P: f64 = 1e-6;
 
+/// Allowance when a TFM-PVALUE probability is compared with the exact reference value `x`: relative
+/// (both are f64 sums of the same products of f32 frequencies; only the summation order differs), so
+/// that tail probabilities far below 1e-6 (skewed backgrounds, p below machine epsilon) are decided too.
+pub fn eps_rel(x: f64) -> f64 {
+    EPS_P * x.abs().min(1.0)
+}
+
 // ------------------------------------------------------------------------------------------------
 // explicit matrices
 // ------------------------------------------------------------------------------------------------
@@ -357,6 +364,9 @@ pub fn logodds(window_start: usize, m: usize, pseudo: f32, bgi: usize) -> Mat {
 pub fn hand_rows() -> Vec<(&'static str, Vec<[f32; 4]>)> {
     vec![
         ("int2", vec![[0.0, 1.0, 2.0, 3.0], [3.0, -1.0, 0.0, 1.0]]),
+        // a non-negative row whose minimum lies strictly between 0 and 0.1: its integer minimum is 0 at granularity 0.1
+        // and positive at every finer one
+        ("smallpos2", vec![[0.0, 1.0, 2.0, 3.0], [0.03, 0.08, 0.17, 0.25]]),
         ("int3", vec![[0.0, 1.0, 2.0, 3.0], [2.0, -1.0, 0.0, 1.0], [-2.0, 3.0, 0.0, 1.0]]),
         ("int4", vec![[1.0, 0.0, 0.0, -1.0], [0.0, 2.0, -2.0, 0.0], [3.0, 0.0, 1.0, 2.0], [-1.0, -1.0, 2.0, 0.0]]),
         ("int5", vec![[0.0, 1.0, 2.0, 3.0], [1.0, 0.0, 0.0, -1.0], [0.0, 4.0, -2.0, 0.0], [3.0, 0.0, 1.0, 2.0], [-1.0, -3.0, 2.0, 0.0]]),
@@ -399,6 +409,20 @@ pub fn hand_rows() -> Vec<(&'static str, Vec<[f32; 4]>)> {
                 [0.7071, 1.3247, 2.5029, 0.1100],
             ],
         ),
+        // log-odds-like under the skewed configuration: the three rare symbols (A, C, G) score high, the common one (T)
+        // low, so that the BEST words are the improbable ones: dozens of attainable tail probabilities lie below
+        // machine epsilon (2.2e-16) and p-values in 1e-17..1e-15 select a few of them
+        (
+            "rarehigh6",
+            vec![
+                [3.10, 2.30, -0.40, 1.20],
+                [2.75, 3.40, -0.15, 0.95],
+                [1.85, 2.60, -0.55, 3.35],
+                [3.60, 1.40, -0.25, 2.05],
+                [2.20, 3.05, -0.35, 1.65],
+                [2.90, 1.10, -0.45, 3.55],
+            ],
+        ),
         // one all-positive and one all-negative row among mixed ones
         ("signrows4", vec![[0.3141, 1.2718, 2.1414, 0.7320], [-0.5772, -2.2360, -0.6931, -1.6180], [1.2020, -0.9159, 0.6457, -0.3010], [0.0794, 1.0986, -0.4342, 0.9459]]),
     ]
@@ -414,13 +438,16 @@ pub enum WildCell {
     PlusOne,
 }
 
-pub const HAND_CONFIGS: [(&str, [usize; 5], WildCell); 6] = [
+pub const HAND_CONFIGS: [(&str, [usize; 5], WildCell); 7] = [
     ("uniform, N=-inf", [1, 1, 1, 1, 0], WildCell::NegInf),
     ("nonuniform(.1,.2,.3,.4,0), N=-inf", [1, 2, 3, 4, 0], WildCell::NegInf),
     ("wildcard(.2,.3,.1,.3,.1), N=row minimum", [2, 3, 1, 3, 1], WildCell::RowMin),
     ("wildcard(.2,.3,.1,.3,.1), N=-inf", [2, 3, 1, 3, 1], WildCell::NegInf),
     ("nonuniform(.1,.2,.3,.4,0), N=0.0 (never drawn)", [1, 2, 3, 4, 0], WildCell::Zero),
     ("nonuniform(.1,.2,.3,.4,0), N=+1.0 (never drawn)", [1, 2, 3, 4, 0], WildCell::PlusOne),
+    // heavily skewed background: word probabilities down to 2^-10M, i.e. tail probabilities (and p-value queries)
+    // far below 1e-6 and, for M >= 6, below machine epsilon
+    ("skewed(2^-10,2^-10,2^-10,1-3*2^-10,0), N=-inf", [1, 1, 1021, 1, 0], WildCell::NegInf),
 ];
 
 pub fn hand(hi: usize, ci: usize) -> Mat {
@@ -498,7 +525,7 @@ pub fn menu_text(widths: &[usize], windows: &dyn Fn(usize) -> usize, pseudos: &[
 pub fn hand_text() -> String {
     let names: Vec<&str> = hand_rows().iter().map(|h| h.0).collect();
     format!(
-        "{} hand matrices ({}: integers, halves, tenths, narrow range, narrow range with offset, constant (small == large branch), constant rows, offset drift, frozen log-odds cells, wide range) x {} wildcard/background configurations (uniform N=-inf; (.1,.2,.3,.4,0) N=-inf; (.2,.3,.1,.3,.1) N=row minimum; (.2,.3,.1,.3,.1) N=-inf; (.1,.2,.3,.4,0) N=0.0; (.1,.2,.3,.4,0) N=+1.0)",
+        "{} hand matrices ({}: integers, halves, tenths, narrow range, narrow range with offset, constant (small == large branch), constant rows, offset drift, frozen log-odds cells, wide range) x {} wildcard/background configurations (uniform N=-inf; (.1,.2,.3,.4,0) N=-inf; (.2,.3,.1,.3,.1) N=row minimum; (.2,.3,.1,.3,.1) N=-inf; (.1,.2,.3,.4,0) N=0.0; (.1,.2,.3,.4,0) N=+1.0; skewed (2^-10,2^-10,1-3*2^-10,2^-10,0) N=-inf: tails below machine epsilon)",
         names.len(),
         names.join(" "),
         HAND_CONFIGS.len()
